@@ -26,7 +26,7 @@ for pid in sorted(registry.PROPERTIES):
         evidence_file='/verif/evidence/%s.json' % pid,
         replay_cmd_template='./check replay {path}',
         engine='vc',
-        level_claimed=dict(category='proof', text=s['scope'], design_ref=s.get('design_ref', 'DESIGN.md section 5 (%s)' % pid)),
+        level_claimed=dict(category=s.get('category', 'proof'), text=s['scope'], design_ref=s.get('design_ref', 'DESIGN.md section 5 (%s)' % pid)),
         level_note='; '.join(s.get('assumptions', []) + ['NOT decided: ' + u for u in s.get('unverified', [])]),
         technique=s.get('technique', 'contract-based deductive verification (Verus/Kani) of mechanically extracted functions')))
 for pid, reason in sorted(registry.NOT_APPLICABLE.items()):
